@@ -175,8 +175,10 @@ def run(case):
             elif k == "update":
                 t = regs[o[1]]
                 if o[3]:
+                    alias = t
                     t |= regs[o[2]]
-                    regs[o[1]] = t
+                    assert t is alias, "`t |= other` rebinds instead of updating the timeline in place"
+                    regs[o[1]] = alias
                 else:
                     assert t.update(regs[o[2]]) is t
             elif k == "union":
